@@ -118,7 +118,7 @@ def families(eng, tier, seed):
             sites = [None] if t["def"][0] == "composite" else list(range(len(t["def"][1])))
             for vi in sites:
                 for si, st in enumerate(sets):
-                    if n not in ("calls", "compact_as", "compact_enum") and si not in (0, 1): continue
+                    if tier == "quick" and n not in ("calls", "compact_as", "compact_enum") and si not in (0, 1): continue
                     fams.append(make_family("standalone-%s-%d.%s-s%d" % (n, ti, vi, si), r, st, ti, vi))
     return fams
 
